@@ -1,8 +1,9 @@
 use crate::{
     constants::{
         LmsTreeIdentifier, D_TOPSEED, HSS_COMPRESSED_USED_LEAFS_SIZE, ILEN, MAX_ALLOWED_HSS_LEVELS,
-        MAX_HASH_SIZE, MAX_SEED_LEN, REF_IMPL_MAX_PRIVATE_KEY_SIZE, SEED_CHILD_SEED,
-        SEED_SIGNATURE_RANDOMIZER_SEED, TOPSEED_D, TOPSEED_LEN, TOPSEED_SEED, TOPSEED_WHICH,
+        MAX_HASH_SIZE, MAX_SEED_LEN, REF_IMPL_MAX_ALLOWED_HSS_LEVELS, REF_IMPL_MAX_PRIVATE_KEY_SIZE,
+        SEED_CHILD_SEED, SEED_SIGNATURE_RANDOMIZER_SEED, TOPSEED_D, TOPSEED_LEN, TOPSEED_SEED,
+        TOPSEED_WHICH, TREE_HEIGHTS, WINTERNITZ_PARAMETERS,
     },
     hasher::HashChain,
     hss::{definitions::HssPrivateKey, seed_derive::SeedDerive},
@@ -111,6 +112,10 @@ impl<H: HashChain> ReferenceImplPrivateKey<H> {
 
         result.extend_from_slice(&self.compressed_used_leafs_indexes.count.to_be_bytes());
         result.extend_from_slice(&self.compressed_parameter.0);
+        // The key format always holds REF_IMPL_MAX_ALLOWED_HSS_LEVELS parameter bytes
+        for _ in MAX_ALLOWED_HSS_LEVELS..REF_IMPL_MAX_ALLOWED_HSS_LEVELS {
+            result.extend_from_slice(&[PARAM_SET_END]);
+        }
         result.extend_from_slice(self.seed.as_slice());
 
         result
@@ -131,6 +136,16 @@ impl<H: HashChain> ReferenceImplPrivateKey<H> {
 
         let compressed_parameter = read_and_advance(data, MAX_ALLOWED_HSS_LEVELS, &mut index);
         result.compressed_parameter = CompressedParameterSet::from_slice(compressed_parameter)?;
+
+        // Levels beyond the configured maximum must be unused
+        let unsupported_levels = read_and_advance(
+            data,
+            REF_IMPL_MAX_ALLOWED_HSS_LEVELS - MAX_ALLOWED_HSS_LEVELS,
+            &mut index,
+        );
+        if unsupported_levels.iter().any(|&byte| byte != PARAM_SET_END) {
+            return Err(());
+        }
 
         let seed_len = result.seed.len();
         result
@@ -275,8 +290,17 @@ impl CompressedParameterSet {
             let lms = LmsAlgorithm::from(lms_type as u32);
             let lmots = LmotsAlgorithm::from(lmots_type as u32);
 
-            if lms.construct_parameter::<H>().is_none()
-                || lmots.construct_parameter::<H>().is_none()
+            let (lms_parameter, lmots_parameter) = match (
+                lms.construct_parameter::<H>(),
+                lmots.construct_parameter::<H>(),
+            ) {
+                (Some(lms_parameter), Some(lmots_parameter)) => (lms_parameter, lmots_parameter),
+                _ => return Err(()),
+            };
+
+            // Refuse parameters beyond the limits the crate was built with
+            if lms_parameter.get_tree_height() as usize > TREE_HEIGHTS[level]
+                || (lmots_parameter.get_winternitz() as usize) < WINTERNITZ_PARAMETERS[level]
             {
                 return Err(());
             }
